@@ -72,6 +72,10 @@ def run(b, ps, tier, seed):
     # how many of the tested programs are in the syntactic class for which C03 is proved outright
     fjres = S.run_tool(b.model, "fjclass", cases, timeout=600)
     fj_in = sorted(i for i, _ in d.programs if fjres.get(i, "") == "FJ-IN")
+    # how many satisfy the static premise init_linear of determinism_typed_core (core fragment, affine, initial forest)
+    linres = S.run_tool(b.model, "initlin", cases, timeout=900)
+    lin_in = sorted(i for i, _ in d.programs if linres.get(i, "") == "LIN-IN")
+    lin_out_core = sorted(i for i, t in d.programs if linres.get(i, "") == "LIN-OUT" and not R.uses_contraction(t) and "drop" not in R.strip_comments(t))
     if hyp_fail and not violations:
         i, m, sd, nbad, t = hyp_fail[0]
         violations.append(C.Violation("the independence hypothesis of the determinism theorem fails on a reachable configuration of accepted program %s (mode %s, model schedule %d: %d pairs)" % (i, m, sd, nbad),
@@ -87,6 +91,9 @@ def run(b, ps, tier, seed):
                          "hypothesis_check": {"what": "I_compat and I_err of determinism_partial (any two distinct enabled choices independent; errors stable) evaluated by the extracted, proved-sound check on every ordered pair of enabled choices at every configuration visited by the model, modes async+sync",
                                               "model_runs": hyp["runs"], "configurations": hyp["configs"], "pairs_evaluated": hyp["pairs"], "pairs_failing": hyp["bad"],
                                               "programs_failing": sorted(set(x[0] for x in hyp_fail))[:10]},
+                         "typed_core_class": {"what": "tested programs that satisfy init_linear_b (proofs/InitLinear.v, sound for the static premise of determinism_typed_core: no drop/split/multi-name, affine bodies, initial configuration a forest): for these topo_reachable is a theorem and C03 rests only on teq_ok and tc_annotations_typed",
+                                              "programs_in_class": len(lin_in), "of": len(d.programs), "ids": lin_in[:12],
+                                              "drop_split_free_but_rejected_by_check": lin_out_core[:12]},
                          "unconditional_class": {"what": "tested programs whose initial configuration is in the fork-join class (fj_cfg_b / fj_funs_b, proofs/ForkJoin.v): for these determinism over all schedules is a theorem with no hypothesis left",
                                                  "programs_in_class": len(fj_in), "of": len(d.programs), "ids": fj_in[:12]}})
     return {"violations": violations, "known": [], "coverage": cov, "assumptions": P.COMMON_ASSUMPTIONS, "trusted_extra": P.COMMON_TRUSTED}
